@@ -2,7 +2,7 @@
 From Coq Require Import String List ZArith Bool Arith Permutation.
 From PV Require Import Xnum Select PyLib Select_proofs Loop Loop_proofs Skeleton Skeleton_proofs SizeModels.
 From PVGen Require Import Algos Expected GenSelect GenHyper.
-From PVBridge Require Import AlgoBridge SelectBridge C16Main ElitMain SizeBridge.
+From PVBridge Require Import AlgoBridge SelectBridge C16Main ElitMain ElitExample SizeBridge.
 
 Theorem C10_pinned_set : forall n, In n pinned_size_regular ->
   exists sk, In sk all_skeletons /\ sk_name sk = n /\ size_regular sk = true.
@@ -56,3 +56,13 @@ Print Assumptions C10_regular_size.
 Theorem C10_no_shared_mutable_state : gen_no_shared_mutable_state = true.
 Proof. reflexivity. Qed.
 Print Assumptions C10_no_shared_mutable_state.
+
+(* non-vacuity: an agent type without NaN costs, a step that improves every slot, P = 3 and a skeleton picked from the REGENERATED all_skeletons (elitist, every write
+   size-known, a `WMap true` write in its step) meet EVERY hypothesis of the trajectory theorems; the trajectory from [5; 2; 2] is what the step computes *)
+Theorem C10_hypotheses_satisfiable :
+  (forall a, el_cost (el_copy a) = el_cost a) /\ (forall l : list elA, costs_ok elA el_cost l) /\ 1 <= 3 /\
+  exists sk, In sk all_skeletons /\ elitist sk = true /\ forallb size_known (sk_step sk) = true /\
+             step_conforms elA el_cost el_copy 3 unit el_step sk /\
+             pop_at elA unit el_step tt (5 :: 2 :: 2 :: nil)%Z 2 = (3 :: 0 :: 0 :: nil)%Z.
+Proof. exact elit_hypotheses_satisfiable. Qed.
+Print Assumptions C10_hypotheses_satisfiable.
